@@ -259,13 +259,17 @@ Qed.
 Lemma small_usize_as_i64 z : 0 <= z < 4611686018427387904 -> usize_as_i64 z = z.
 Proof. intros H. unfold usize_as_i64, wrap64, two64. rewrite Z.mod_small by lia. lia. Qed.
 
-(* outside the known class (every pc below 2^62, at most 2^32 bytes at a time) nothing panics *)
+Lemma source_map_add_panics_iff tpc len : source_map_add tpc len = SPanic <-> two64 <= tpc + len.
+Proof. unfold source_map_add. destruct (two64 <=? tpc + len) eqn:E; split; try discriminate; try lia; reflexivity. Qed.
+
+(* outside the known class (every pc below 2^62, relocated pc not negative, at most 2^32 bytes at a time) nothing panics *)
 Lemma pc_arithmetic_guarded pc initial target len :
-  Known_pc_out_of_range pc = false -> Known_pc_out_of_range initial = false -> Known_pc_out_of_range target = false ->
-  0 <= len <= 4294967296 ->
-  segment_emit pc len <> SPanic /\ pc_add pc len <> SPanic /\ target_pc pc initial target <> SPanic.
+  Known_pc_out_of_range pc initial target = false -> 0 <= len <= 4294967296 ->
+  segment_emit pc len <> SPanic /\ pc_add pc len <> SPanic /\
+  exists t, target_pc pc initial target = SOk t /\ source_map_add t len <> SPanic.
 Proof.
-  unfold Known_pc_out_of_range. intros A B D L.
+  unfold Known_pc_out_of_range, pc_insane. intros K L.
+  apply orb_false_iff in K as [K R]. apply orb_false_iff in K as [K D]. apply orb_false_iff in K as [A B].
   apply negb_false_iff in A, B, D. apply andb_prop in A as [A1 A2], B as [B1 B2], D as [D1 D2].
   assert (Hp : 0 <= pc < 4611686018427387904) by lia.
   assert (Hi : 0 <= initial < 4611686018427387904) by lia.
@@ -273,14 +277,20 @@ Proof.
   repeat split.
   - intros H. apply segment_emit_panics_iff in H. unfold two64 in H. lia.
   - intros H. apply pc_add_panics_iff in H. unfold two64 in H. lia.
-  - intros H. apply target_pc_panics_iff in H. rewrite !small_usize_as_i64 in H by assumption.
-    unfold in_i64, i64_min, i64_max in H. destruct H as [H|H]; lia.
+  - unfold target_pc. change target_pc_checked with false. cbv iota. rewrite !small_usize_as_i64 by assumption.
+    assert (I1 : in_i64 (target - initial) = true) by (unfold in_i64, i64_min, i64_max; lia).
+    assert (I2 : in_i64 (pc + (target - initial)) = true) by (unfold in_i64, i64_min, i64_max; lia).
+    rewrite I1, I2. cbn [negb]. eexists. split; [reflexivity|].
+    intros H. apply source_map_add_panics_iff in H. unfold as_usize, two64 in H.
+    rewrite Z.mod_small in H by lia. lia.
 Qed.
 
 Lemma pc_arithmetic_refuted :
-  segment_emit (pc_from_i64 (-1)) 1 = SPanic /\ Known_pc_out_of_range (pc_from_i64 (-1)) = true /\
-  target_pc (pc_from_i64 i64_max) 0 1 = SPanic.
-Proof. repeat split; vm_compute; reflexivity. Qed.
+  segment_emit (pc_from_i64 (-1)) 1 = SPanic /\ Known_pc_out_of_range (pc_from_i64 (-1)) 49152 49152 = true /\
+  target_pc (pc_from_i64 i64_max) 0 1 = SPanic /\
+  (* a relocated segment (start $2000, pc 0) whose pc is moved below its start: the target pc wraps around *)
+  (exists t, target_pc 4096 8192 0 = SOk t /\ source_map_add t 8192 = SPanic) /\ Known_pc_out_of_range 4096 8192 0 = true.
+Proof. repeat split; try (vm_compute; reflexivity). eexists. split; vm_compute; reflexivity. Qed.
 
 (* ------------------------------------------------------------------ whole statements *)
 Lemma eval_i64_total en e : eval_i64 en e <> SPanic.
@@ -316,13 +326,12 @@ Proof.
 Qed.
 
 Lemma stmt_pc_guarded en initial target e v :
-  eval en e = EVal (Some (SNum v)) ->
-  Known_pc_out_of_range (pc_from_i64 v) = false -> Known_pc_out_of_range initial = false -> Known_pc_out_of_range target = false ->
+  eval en e = EVal (Some (SNum v)) -> Known_pc_out_of_range (pc_from_i64 v) initial target = false ->
   stmt_pc_then_byte en initial target e <> RPanic.
 Proof.
-  intros Ev K1 K2 K3. unfold stmt_pc_then_byte, eval_i64. rewrite Ev.
-  destruct (pc_arithmetic_guarded (pc_from_i64 v) initial target 1 K1 K2 K3 ltac:(lia)) as (A & _ & B).
-  destruct (target_pc (pc_from_i64 v) initial target); try discriminate; [|congruence].
+  intros Ev K. unfold stmt_pc_then_byte, eval_i64. rewrite Ev.
+  destruct (pc_arithmetic_guarded (pc_from_i64 v) initial target 1 K ltac:(lia)) as (A & _ & t & -> & B).
+  destruct (source_map_add t 1); try discriminate; [|congruence].
   destruct (segment_emit (pc_from_i64 v) 1); try discriminate. congruence.
 Qed.
 
@@ -354,3 +363,18 @@ Proof. vm_compute. reflexivity. Qed.
 
 Lemma nested_dummy_segment_ok : emit_after_nested_dummy = SOk tt.
 Proof. reflexivity. Qed.
+
+Lemma bank_padding_total size len fill : bank_padding size len fill <> SPanic.
+Proof. unfold bank_padding. destruct (size <? 0); [discriminate|]. destruct (len <? size); [destruct fill; discriminate|]. destruct (size <? len); discriminate. Qed.
+
+Lemma bank_padding_guarded size len fill n : 0 <= len -> Known_bank_size_huge size = false ->
+  bank_padding size len fill = SOk n -> 0 <= n <= 1073741824.
+Proof.
+  unfold bank_padding, Known_bank_size_huge. intros L K.
+  destruct (size <? 0) eqn:A; [discriminate|]. destruct (len <? size) eqn:B.
+  - destruct fill; [|discriminate]. intros [= <-]. lia.
+  - destruct (size <? len); [discriminate|]. intros [= <-]. lia.
+Qed.
+
+Lemma bank_padding_refuted : bank_padding 1099511627776 1 true = SOk 1099511627775 /\ Known_bank_size_huge 1099511627776 = true.
+Proof. split; vm_compute; reflexivity. Qed.
